@@ -260,19 +260,20 @@ theorem regFields_mem (O : Oracles) (attrs : List (String × PyVal)) (n : String
     · cases heq; simpa [hl, hv] using hc.1
     · exact regFields_mem O attrs n f v rest hc.2 hm' hl hv
 
-/-- `properties` of a class without defaults: one lemma per field suffices -/
-theorem jsProps_of (R S) (r : List (PyVal × PyVal)) :
+/-- `properties` of a class (a `default` written into a property schema is ignored by the validator):
+    one lemma per field suffices -/
+theorem jsProps_of (R S) (defaults : List (String × PyVal)) (r : List (PyVal × PyVal)) :
     ∀ fields : List (String × PyVal),
       (∀ n s, (n, s) ∈ fields → ∀ x, getKw n r = some x → jsV R S s x = true) →
-      jsProps R S (propsOf [] fields) r = true
+      jsProps R S (propsOf defaults fields) r = true
   | [], _ => rfl
   | (n, s) :: rest, h => by
-    simp only [propsOf, lookup, addDefault, jsProps, kw, docKey, and_true_iff']
+    simp only [propsOf, jsProps, kw, docKey, and_true_iff']
     constructor
     · cases hx : getKw n r with
       | none => rfl
-      | some x => exact h n s (by simp) x hx
-    · exact jsProps_of R S r rest (fun n' s' hm => h n' s' (by simp [hm]))
+      | some x => simp only [c08_jsV_addDefault]; exact h n s (by simp) x hx
+    · exact jsProps_of R S defaults r rest (fun n' s' hm => h n' s' (by simp [hm]))
 
 theorem emitP_mem (fx : Bool) (n : String) (s : PyVal) :
     ∀ fields : List (String × FieldDecl), (n, s) ∈ emitP fx fields →
@@ -290,23 +291,23 @@ theorem emitP_names (fx : Bool) : ∀ fields : List (String × FieldDecl),
   | [] => rfl
   | (k, g) :: rest => by simp [emitP, emitP_names fx rest]
 
-theorem propsOf_names : ∀ fields : List (String × PyVal),
-    (propsOf [] fields).filterMap (fun p => docKey p.1) = fields.map (·.1)
+theorem propsOf_names (defaults : List (String × PyVal)) : ∀ fields : List (String × PyVal),
+    (propsOf defaults fields).filterMap (fun p => docKey p.1) = fields.map (·.1)
   | [] => rfl
   | (n, s) :: rest => by
     have : docKey (PyVal.str n) = some n := rfl
-    simp only [propsOf, kw, List.filterMap_cons, this, List.map_cons, propsOf_names rest]
+    simp only [propsOf, kw, List.filterMap_cons, this, List.map_cons, propsOf_names defaults rest]
 
 /-- the object schema of a class (no defaults) accepts a document whose declared members satisfy
     their property schemas, which has every required member and no undeclared one unless allowed -/
-theorem jsV_classObj (R S) (c : ClassOpts) (fields : List (String × PyVal)) (r : List (PyVal × PyVal))
-    (hprops : jsProps R S (propsOf [] fields) r = true)
-    (hreq : ∀ n ∈ c.required, (getKw n r).isSome = true)
+theorem jsV_classObj (R S) (c : ClassOpts) (defaults : List (String × PyVal)) (fields : List (String × PyVal))
+    (r : List (PyVal × PyVal))
+    (hprops : jsProps R S (propsOf defaults fields) r = true)
+    (hreq : ∀ n ∈ schemaRequired c defaults, (getKw n r).isSome = true)
     (haddl : c.addl = true ∨ ∀ kv ∈ r, ∃ name, docKey kv.1 = some name ∧ (fields.map (·.1)).contains name = true) :
-    jsV R S (classObj c [] fields) (.dict r) = true := by
-  have hsr : schemaRequired c [] = c.required := by simp [schemaRequired]
+    jsV R S (classObj c defaults fields) (.dict r) = true := by
   unfold classObj
-  rw [hsr]
+  generalize schemaRequired c defaults = req at hreq ⊢
   rw [jsV_dict _ _ _ _ (by simp [getKw, kw, keyIs])]
   simp only [jsKws, and_true_iff', Bool.and_true]
   refine ⟨?_, ?_, ?_, ?_⟩
@@ -325,8 +326,8 @@ theorem jsV_classObj (R S) (c : ClassOpts) (fields : List (String × PyVal)) (r 
       intro kv hkv
       obtain ⟨name, hn1, hn2⟩ := h kv hkv
       have hmn : memberNames "properties"
-          [(PyVal.str "type", PyVal.str "object"), (PyVal.str "properties", PyVal.dict (propsOf [] fields)),
-           (PyVal.str "required", PyVal.list (List.map PyVal.str c.required)),
+          [(PyVal.str "type", PyVal.str "object"), (PyVal.str "properties", PyVal.dict (propsOf defaults fields)),
+           (PyVal.str "required", PyVal.list (List.map PyVal.str req)),
            (PyVal.str "additionalProperties", PyVal.bool c.addl)] = fields.map (·.1) := by
         simp [memberNames, getKw, keyIs, propsOf_names]
       simp [hn1, hmn]
@@ -558,13 +559,13 @@ theorem sMap_dict (g : List (PyVal × PyVal) → R (List (PyVal × PyVal))) (kvs
 /-- the class object accepts the serialization of a deeply well-formed instance, given that every
     field's schema accepts that field's serialized value -/
 theorem adm_struct_core (O : Oracles) (R S) (c : ClassOpts) (fields : List (String × FieldDecl))
-    (v j : PyVal)
+    (defaults : List (String × PyVal)) (v j : PyVal)
     (hnd : nodupS (fields.map (·.1)) = true)
     (hfields : ∀ name f, (name, f) ∈ fields → ∀ x, conforms O f x = true → regF O f x = true →
       Adm O R S f x)
-    (hr : regF O (.struct c fields []) v = true)
-    (hj : ser O (.struct c fields []) v = .ok j) :
-    jsV R S (classObj c [] (emitP true fields)) j = true := by
+    (hr : regF O (.struct c fields defaults) v = true)
+    (hj : ser O (.struct c fields defaults) v = .ok j) :
+    jsV R S (classObj c defaults (emitP true fields)) j = true := by
   cases v with
   | inst cn attrs =>
     simp only [regF, and_true_iff'] at hr
@@ -593,7 +594,7 @@ theorem adm_struct_core (O : Oracles) (R S) (c : ClassOpts) (fields : List (Stri
       apply s2
       have hp : attrPresent attrs n = true := by
         rw [List.all_eq_true] at hreq
-        exact hreq n (by simp [schemaRequired, hn])
+        exact hreq n hn
       unfold attrPresent at hp
       cases hl : lookup n attrs with
       | none => simp [hl] at hp
@@ -712,6 +713,59 @@ theorem regAll_mem (O : Oracles) (v : PyVal) : ∀ (fs : List FieldDecl) (f : Fi
     rcases List.mem_cons.mp h with rfl | h'
     · simpa [hc] using hr.1
     · exact regAll_mem O v fs f hr.2 h' hc
+
+/-! ### `AllOf` over raw scalars -/
+
+theorem rawScalar_plain (f : FieldDecl) (h : rawScalar f = true) : plainScalar f = true := by
+  cases f <;> simp [rawScalar] at h <;> rfl
+
+/-- for Number / Integer / String / Enum of literals the accept test and the conformance test coincide -/
+theorem admits_eq_conforms_raw (O : Oracles) (f : FieldDecl) (v : PyVal) (h : rawScalar f = true) :
+    admits O f v = conforms O f v := by
+  cases f <;> simp [rawScalar] at h <;> simp [admits, conforms]
+
+theorem admitsAll_mem (O : Oracles) (v : PyVal) : ∀ fs : List FieldDecl, admitsAll O fs v = true →
+    ∀ f ∈ fs, admits O f v = true
+  | [], _, _, h => by simp at h
+  | g :: fs, ha, f, h => by
+    simp only [admitsAll, and_true_iff'] at ha
+    rcases List.mem_cons.mp h with rfl | h'
+    · exact ha.1
+    · exact admitsAll_mem O v fs ha.2 f h'
+
+theorem jsAllL_of_all (R S) (d : PyVal) : ∀ ss : List PyVal, (∀ s ∈ ss, jsV R S s d = true) →
+    jsAllL R S ss d = true
+  | [], _ => rfl
+  | s :: ss, h => by
+    simp only [jsAllL, and_true_iff']
+    exact ⟨h s (by simp), jsAllL_of_all R S d ss (fun t ht => h t (by simp [ht]))⟩
+
+theorem emitL_mem_inv (fx : Bool) : ∀ (fs : List FieldDecl) (s : PyVal), s ∈ emitL fx fs →
+    ∃ f ∈ fs, s = emit fx f
+  | [], _, h => by simp [emitL] at h
+  | g :: fs, s, h => by
+    simp only [emitL] at h
+    rcases List.mem_cons.mp h with rfl | h'
+    · exact ⟨g, by simp, rfl⟩
+    · obtain ⟨f, hf, hs⟩ := emitL_mem_inv fx fs s h'
+      exact ⟨f, by simp [hf], hs⟩
+
+/-- the size bound of a Map holds of the serialized object when it has as many members as the map
+    has entries (or there is no bound) -/
+theorem c08_sizeOk_of_sameCount (sz : SizeOpts) (n : Nat) (res : R PyVal) (j : PyVal) (hj : res = .ok j)
+    (hsz : sizeOk sz n = true) (hs : sameCount sz n res = true) :
+    ∀ r, j = .dict r → sizeOk sz r.length = true := by
+  intro r hr
+  subst hr
+  subst hj
+  simp only [sameCount, Bool.or_eq_true] at hs
+  rcases hs with h | h
+  · simp only [and_true_iff'] at h
+    have h1 : sz.min = none := by simpa using h.1
+    have h2 : sz.max = none := by simpa using h.2
+    simp [sizeOk, h1, h2, geLen, leLen]
+  · have : r.length = n := by simpa using h
+    rw [this]; exact hsz
 
 /-! ### the main induction -/
 
@@ -847,15 +901,18 @@ theorem admits_field (O : Oracles) (S : String → String → Bool)
       · exact admits_zip O S hS D fs n xs hf.2 hrf hd hc.2 hr.1 ys hys
       · rw [emitL_length]; omega
     | _ => simp at hc
-  | .mapAny sz, n, v, _, _, _, hc, _ => by
+  | .mapAny sz, n, v, _, _, _, hc, hr => by
     intro j hj
     simp only [conforms, cMap] at hc
     cases v with
     | dict kvs =>
+      simp only [and_true_iff'] at hc
+      simp only [regF] at hr
+      have hcount := c08_sizeOk_of_sameCount sz kvs.length _ j hj hc.1 hr
       simp only [ser] at hj
       obtain ⟨r, _, rfl⟩ := sMap_dict _ kvs j hj
       simp only [emit]
-      exact jsV_mapAny _ S sz _
+      exact jsV_mapAny _ S sz _ (hcount _ rfl)
     | _ => simp at hc
   | .mapOf k vf sz, n, v, hf, hrf, hd, hc, hr => by
     intro j hj
@@ -864,11 +921,14 @@ theorem admits_field (O : Oracles) (S : String → String → Bool)
     cases v with
     | dict kvs =>
       simp only [and_true_iff'] at hc
-      simp only [regF] at hr
+      simp only [regF, and_true_iff'] at hr
+      have hcount := c08_sizeOk_of_sameCount sz kvs.length _ j hj hc.1 hr.2
+      have hr := hr.1
       simp only [RefsFaithful] at hrf
       simp only [refDepth] at hd
       simp only [ser] at hj
       obtain ⟨r, hr', rfl⟩ := sMap_dict _ kvs j hj
+      have hcount := hcount _ rfl
       simp only [emit]
       have hvals : (dictOfPairs r).all (fun kv => jsV (resolver D S n) S (emit true vf) kv.2) = true := by
         refine dictOfPairs_all (fun kv => jsV (resolver D S n) S (emit true vf) kv.2) (fun _ => true)
@@ -882,16 +942,14 @@ theorem admits_field (O : Oracles) (S : String → String → Bool)
         simp only [and_true_iff'] at hckv
         exact admits_field O S hS D vf n kv.2 hf.2 hrf hd hckv.2 (List.all_eq_true.mp hr kv hkv) v' hv'
       cases hkp : (mapKeyPattern k != "") with
-      | true => exact jsV_mapPat _ S k (emit true vf) sz _ hkp hvals
+      | true => exact jsV_mapPat _ S k (emit true vf) sz _ hkp hcount hvals
       | false =>
-        exact jsV_mapOf _ S k (emit true vf) sz _ (by simpa using hkp) (emit_shape true vf) hvals
+        exact jsV_mapOf _ S k (emit true vf) sz _ (by simpa using hkp) (emit_shape true vf) hcount hvals
     | _ => simp at hc
   | .struct c fields defaults, n, v, hf, hrf, hd, _, hr => by
     intro j hj
     simp only [fragF, and_true_iff'] at hf
-    obtain ⟨⟨hnd, hdef⟩, hfp⟩ := hf
-    have hdef' : defaults = [] := by simpa using hdef
-    subst hdef'
+    obtain ⟨hnd, hfp⟩ := hf
     simp only [RefsFaithful] at hrf
     simp only [refDepth] at hd
     simp only [emit]
@@ -899,7 +957,7 @@ theorem admits_field (O : Oracles) (S : String → String → Bool)
     | true =>
       simp only [hin, if_true] at hd ⊢
       rw [retype_classObj]
-      exact adm_struct_core O _ S c fields v j hnd
+      exact adm_struct_core O _ S c fields defaults v j hnd
         (fun name f hm x hcx hrx => admits_fields O S hS D fields n hfp hrf.2 hd name f hm x hcx hrx) hr hj
     | false =>
       simp only [hin, Bool.false_eq_true, if_false] at hd ⊢
@@ -907,12 +965,12 @@ theorem admits_field (O : Oracles) (S : String → String → Bool)
       cases n with
       | zero => omega
       | succ m =>
-        have hlk : lookup ("#/definitions/" ++ c.name) D = some (classObj c [] (emitP true fields)) := by
+        have hlk : lookup ("#/definitions/" ++ c.name) D = some (classObj c defaults (emitP true fields)) := by
           rcases hrf.1 with h | h
           · simp [hin] at h
           · rw [h]
         simp only [resolver, hlk]
-        exact adm_struct_core O _ S c fields v j hnd
+        exact adm_struct_core O _ S c fields defaults v j hnd
           (fun name f hm x hcx hrx =>
             admits_fields O S hS D fields m hfp hrf.2 (by omega) name f hm x hcx hrx) hr hj
   | .anyOf fs, n, v, hf, hrf, hd, hc, hr => by
@@ -996,7 +1054,32 @@ theorem admits_field (O : Oracles) (S : String → String → Bool)
           (List.all_eq_true.mp hr.1 x hx) y hy
     | _ => simp at hc
   | .oneOf _, _, _, hf, _, _, _, _ => by simp [fragF] at hf
-  | .allOf _, _, _, hf, _, _, _, _ => by simp [fragF] at hf
+  | .allOf fs, n, v, hf, hrf, hd, hc, hr => by
+    intro j hj
+    simp only [fragF, and_true_iff'] at hf
+    simp only [RefsFaithful] at hrf
+    simp only [refDepth] at hd
+    simp only [conforms] at hc
+    simp only [regF] at hr
+    simp only [ser] at hj
+    simp only [emit]
+    rw [jsV_allOf]
+    have hplain : fs.all plainScalar = true := by
+      rw [List.all_eq_true] at hf ⊢
+      intro f hfm
+      exact rawScalar_plain f (hf.1.2 f hfm)
+    have hjv : j = v := serFirst_plain O fs v j hplain hj
+    subst hjv
+    apply jsAllL_of_all
+    intro s hs
+    obtain ⟨f, hfm, rfl⟩ := emitL_mem_inv true fs s hs
+    have hraw : rawScalar f = true := (List.all_eq_true.mp hf.1.2) f hfm
+    have hcf : conforms O f j = true := by
+      rw [← admits_eq_conforms_raw O f j hraw]
+      exact admitsAll_mem O j fs hc f hfm
+    have hrf' := regAll_mem O j fs f hr hfm hcf
+    have hadm := admits_mem O S hS D fs n hf.2 hrf hd f hfm j hcf hrf'
+    exact hadm j (ser_plain_conf O f j (rawScalar_plain f hraw) hcf hrf')
   | .notF _, _, _, hf, _, _, _, _ => by simp [fragF] at hf
   | .noneF, _, _, hf, _, _, _, _ => by simp [fragF] at hf
   | .anything, _, _, hf, _, _, _, _ => by simp [fragF] at hf
@@ -1086,19 +1169,17 @@ theorem admits_class (O : Oracles) (S : String → String → Bool)
   cases cls with
   | struct c fields defaults =>
     simp only [inSchemaFragment, fragF, and_true_iff'] at hfrag
-    obtain ⟨⟨hni, hncol⟩, ⟨⟨hnd, hdef⟩, hfp⟩⟩ := hfrag
-    have hdef' : defaults = [] := by simpa using hdef
-    subst hdef'
+    obtain ⟨⟨hni, hncol⟩, ⟨hnd, hfp⟩⟩ := hfrag
     have hin : c.inline = false := by simpa using hni
     simp only [ClassRefsFaithful] at hrefs
     simp only [refDepth, hin, Bool.false_eq_true, if_false] at hd
-    have hshape : structShape c [] (emitP true fields) = classObj c [] (emitP true fields) := by
+    have hshape : structShape c defaults (emitP true fields) = classObj c defaults (emitP true fields) := by
       unfold structShape
       rw [emitP_names]
       simp only [Bool.not_eq_true'] at hncol
       simp [hncol]
     simp only [classSchema, hshape]
-    exact adm_struct_core O _ S c fields x j hnd
+    exact adm_struct_core O _ S c fields defaults x j hnd
       (fun name f hm y hcy hry =>
         admits_fields O S hS D fields n hfp hrefs (by omega) name f hm y hcy hry) hreg hser
   | _ => simp [inSchemaFragment] at hfrag
